@@ -100,6 +100,14 @@ pub fn driver(dir: &str, history: &str) {
         store.insert_frame(&imp).unwrap();
     }
     ack(&mut n, json!({"op": "import", "effects": [{"ins": fj(&imp)}]}));
+    // importing the very same frame again changes nothing - at no crash point either
+    if let Some(s) = &server {
+        let r = crate::http::once(&s.sock, &Req::new("POST", "/import").body(serde_json::to_string(&imp).unwrap().as_bytes()));
+        assert!(r.status == 200);
+    } else {
+        store.insert_frame(&imp).unwrap();
+    }
+    ack(&mut n, json!({"op": "import-again", "effects": []}));
     do_flush(&store);
     // 6-7 head:1 appends with eviction
     let t1 = store.append(Frame::builder("t", ZERO_CONTEXT).ttl(TTL::Head(1)).meta(meta("t1")).build()).unwrap();
